@@ -31,7 +31,11 @@ def mk_event(ci, k, frac_ms=True, eid=None, salt=0):
         t -= t % 100         # tenths of a second: written with one fraction digit by the 'short' time format
     if ci == 0 and k == 0 and salt % 4 == 0:
         t = (0, 0, -1, 1, 1000, -1000)[(salt // 4) % 6]   # exactly at / next to 1970-01-01T00:00:00
-    return (eid or "c%de%d" % (ci, k), t, 30.0 + ci + k / 8.0, -120.0 + ci / 2.0 + k / 16.0, 5.0 + k, 4.0 + ci / 10.0 + k / 100.0)
+    lat, lon, depth = 30.0 + ci + k / 8.0, -120.0 + ci / 2.0 + k / 16.0, 5.0 + k
+    if (ci + 2 * k + salt) % 5 == 0:
+        # values below 1e-4 in size: repr / str / csv write them in exponent notation (2.5e-05)
+        lat, lon, depth = (2.5e-05, -5e-05, 1e-05)[(ci + k) % 3] * (1 + ci), lon, (1.25e-05, 5e-06)[k % 2]
+    return (eid or "c%de%d" % (ci, k), t, lat, lon, depth, 4.0 + ci / 10.0 + k / 100.0)
 
 
 def build(case):
@@ -159,7 +163,10 @@ def enumerate_short(max_n=5, max_ev=2):
 
 
 def make_long_cases(max_n):
-    ids = st.text(alphabet=st.characters(min_codepoint=33, max_codepoint=126), min_size=1, max_size=12)
+    ids = st.one_of(st.text(alphabet=st.characters(min_codepoint=33, max_codepoint=126), min_size=1, max_size=12),
+                    st.text(alphabet=st.characters(min_codepoint=33, max_codepoint=126), min_size=1, max_size=12),
+                    # right-justified / padded ids: leading and trailing blanks belong to the id
+                    st.integers(0, 10**6).map(lambda v: "%8d" % v), st.sampled_from(["   71234", " a", "b ", "  x  y "]))
 
     @st.composite
     def long_cases(draw):
